@@ -239,20 +239,19 @@ def scanDigits : List Nat → Nat → Nat × List Nat
   | [], acc => (acc, [])
   | c :: cs, acc => if isDigit c then scanDigits cs (10 * acc + (c - 48)) else (acc, c :: cs)
 
+/-- optional sign of a numeric conversion -/
+def scanSign : List Nat → Bool × List Nat
+  | 45 :: t => (true, t)
+  | 43 :: t => (false, t)
+  | s => (false, s)
+
 /-- the numeric conversion of scanf (`%d`, `%u`): skip white space, optional sign, at least
 one digit.  Result: (negative?, magnitude, rest) or `none` (matching/input failure: nothing
 is stored) -/
 def scanNum (s : List Nat) : Option (Bool × Nat × List Nat) :=
-  let s := s.dropWhile isSpace
-  let (neg, s) := match s with
-    | 45 :: t => (true, t)
-    | 43 :: t => (false, t)
-    | _ => (false, s)
-  match s with
-  | c :: _ => if isDigit c then
-                let (v, rest) := scanDigits s 0
-                some (neg, v, rest)
-              else none
+  let sg := scanSign (s.dropWhile isSpace)
+  match sg.2 with
+  | c :: _ => if isDigit c then some (sg.1, (scanDigits sg.2 0).1, (scanDigits sg.2 0).2) else none
   | [] => none
 
 /-- value stored by `%d` into an `int`: glibc converts with `strtol` (saturating at
@@ -309,23 +308,26 @@ def arfcnPCS : Nat := 32768
 def arfcnUPLINK : Nat := 16384
 def arfcnFlagMask : Nat := 61440
 
+/-- the `if`/`else if` chain of in-tree `gsm_arfcn2freq10`: (freq10_ul, freq10_dl − freq10_ul) as
+`int` values, `none` = the final `else return 0xffff` -/
+def arfcnBand (isPcs : Bool) (a : Int) : Option (Int × Int) :=
+  if isPcs then some (18502 + 2 * (a - 512), 800)                      -- DCS 1900
+  else if a ≤ 124 then some (8900 + 2 * a, 450)                        -- Primary GSM + ARFCN 0 of E-GSM
+  else if a ≥ 955 ∧ a ≤ 1023 then some (8900 + 2 * (a - 1024), 450)    -- E-GSM and R-GSM
+  else if a ≥ 128 ∧ a ≤ 251 then some (8242 + 2 * (a - 128), 450)      -- GSM 850
+  else if a ≥ 512 ∧ a ≤ 885 then some (17102 + 2 * (a - 512), 950)     -- DCS 1800
+  else if a ≥ 259 ∧ a ≤ 293 then some (4506 + 2 * (a - 259), 100)      -- GSM 450
+  else if a ≥ 306 ∧ a ≤ 340 then some (4790 + 2 * (a - 306), 100)      -- GSM 480
+  else if a ≥ 350 ∧ a ≤ 425 then some (8060 + 2 * (a - 350), 450)      -- GSM 810
+  else if a ≥ 438 ∧ a ≤ 511 then some (7472 + 2 * (a - 438), 300)      -- GSM 750
+  else none
+
 /-- in-tree `gsm_arfcn2freq10(arfcn, uplink)`; 0xffff = not defined -/
 def arfcn2freq10 (arfcn : Nat) (uplink : Bool) : Nat :=
   let arfcn := u16 arfcn
-  let isPcs := arfcn &&& arfcnPCS
+  let isPcs := arfcn &&& arfcnPCS                                       -- int is_pcs = arfcn & ARFCN_PCS
   let a : Int := ((arfcn &&& (65535 - arfcnFlagMask) : Nat) : Int)     -- arfcn &= ~ARFCN_FLAG_MASK
-  let r : Option (Int × Int) :=                                        -- (freq10_ul, offset of dl)
-    if isPcs ≠ 0 then some (18502 + 2 * (a - 512), 800)
-    else if a ≤ 124 then some (8900 + 2 * a, 450)
-    else if a ≥ 955 ∧ a ≤ 1023 then some (8900 + 2 * (a - 1024), 450)
-    else if a ≥ 128 ∧ a ≤ 251 then some (8242 + 2 * (a - 128), 450)
-    else if a ≥ 512 ∧ a ≤ 885 then some (17102 + 2 * (a - 512), 950)
-    else if a ≥ 259 ∧ a ≤ 293 then some (4506 + 2 * (a - 259), 100)
-    else if a ≥ 306 ∧ a ≤ 340 then some (4790 + 2 * (a - 306), 100)
-    else if a ≥ 350 ∧ a ≤ 425 then some (8060 + 2 * (a - 350), 450)
-    else if a ≥ 438 ∧ a ≤ 511 then some (7472 + 2 * (a - 438), 300)
-    else none
-  match r with
+  match arfcnBand (isPcs != 0) a with
   | none => 65535
   | some (ul, off) =>
     let ul := u16i ul                 -- uint16_t freq10_ul
@@ -409,21 +411,26 @@ def ctrlSend (t : Trx) : Except Fault Trx :=
             else pure t
     pure { t with ev := t.ev ++ [Event.timerSched 2 0] }
 
-/-- `trx_ctrl_cmd(trx, critical, cmd, fmt, ...)`; `args = none` when `fmt` is empty, otherwise
-the complete text the format and its arguments expand to -/
+/-- "Fill in command arguments" of `trx_ctrl_cmd`: the string left in the zeroed `tcm->cmd`;
+`args = none` when `fmt` is empty, otherwise the complete text the format and its arguments
+expand to -/
+def ctrlCmdText (verb : List Nat) (args : Option (List Nat)) : Except Fault (List Nat) :=
+  let size := cmdSize
+  match args with
+  | some a =>
+    -- len = snprintf(tcm->cmd, sizeof(tcm->cmd) - 1, "CMD %s ", cmd);
+    let pre := str "CMD " ++ verb ++ [32]
+    let len := pre.length
+    let stored := snprintfStored (size - 1) pre
+    -- vsnprintf(tcm->cmd + len, sizeof(tcm->cmd) - len - 1, fmt, ap);
+    if len ≥ size then .error .crash            -- size argument wraps around / pointer outside cmd[]
+    else .ok (stored ++ snprintfStored (size - len - 1) a)
+  | none => .ok (snprintfStored (size - 1) (str "CMD " ++ verb))
+
+/-- `trx_ctrl_cmd(trx, critical, cmd, fmt, ...)` -/
 def ctrlCmd (t : Trx) (critical : Int) (verb : List Nat) (args : Option (List Nat)) : Except Fault (Int × Trx) := do
   let pending := !t.queue.isEmpty
-  let size := cmdSize
-  let text ← match args with
-    | some a =>
-      -- len = snprintf(tcm->cmd, sizeof(tcm->cmd) - 1, "CMD %s ", cmd);
-      let pre := str "CMD " ++ verb ++ [32]
-      let len := pre.length
-      let stored := snprintfStored (size - 1) pre
-      -- vsnprintf(tcm->cmd + len, sizeof(tcm->cmd) - len - 1, fmt, ap);
-      if len ≥ size then .error .crash            -- size argument wraps around / pointer outside cmd[]
-      else pure (stored ++ snprintfStored (size - len - 1) a)
-    | none => pure (snprintfStored (size - 1) (str "CMD " ++ verb))
+  let text ← ctrlCmdText verb args
   let tcm : CtrlMsg := { cmd := text, critical := critical, cmdLen := verb.length }
   let t := { t with queue := t.queue ++ [tcm] }
   let t ← if !pending then ctrlSend t else pure t
@@ -443,27 +450,29 @@ inductive PhyCmd where
   | raw (type : Nat)
 deriving DecidableEq, Repr
 
-/-- the loop of `trx_if_cmd_setfh`: `mem` = the octets of `ma_buf` before `ptr`, `room` =
+/-- the text appended for one ARFCN: `"%u %u "` of the Rx and Tx frequency in kHz -/
+def pairText (rx tx : Nat) : List Nat := fmtU (rx * 100) ++ [32] ++ fmtU (tx * 100) ++ [32]
+
+/-- the loop of `trx_if_cmd_setfh`: `rest` = the part `ma[i ..]` of the array still ahead,
+`n` = iterations left (`ma_len - i`), `mem` = the octets of `ma_buf` before `ptr`, `room` =
 `ma_buf_len`.  Result: the octets before `ptr` after the loop, or the error code returned -/
-def setfhLoop (ma : List Nat) : (i n : Nat) → (mem : List Nat) → (room : Nat) → Except Fault (Except Int (List Nat))
+def setfhLoop : (rest : List Nat) → (n : Nat) → (mem : List Nat) → (room : Nat) → Except Fault (Except Int (List Nat))
   | _, 0, mem, _ => .ok (.ok mem)
-  | i, n + 1, mem, room =>
-    match ma[i]? with
-    | none => .error .crash                                  -- reads beyond the array
-    | some a =>
+  | [], _ + 1, _, _ => .error .crash                          -- cmdp->ma[i] beyond the array
+  | a :: rest, n + 1, mem, room =>
       let rx := arfcn2freq10 a false
       let tx := arfcn2freq10 a true
       if rx = 65535 ∨ tx = 65535 then .ok (.error (-eINVAL))
       else
         -- rc = snprintf(ptr, ma_buf_len, "%u %u ", rx_freq * 100, tx_freq * 100);
-        let s := fmtU (rx * 100) ++ [32] ++ fmtU (tx * 100) ++ [32]
+        let s := pairText rx tx
         let rc := s.length
         if rc > room then .ok (.error (-eNOSPC))              -- if (rc < 0 || rc > ma_buf_len)
         else
           -- exactly rc octets become initialised: the text, or (rc = room) the text cut by one
           -- character and the NUL
           let piece := if rc < room then s else snprintfStored room s ++ [0]
-          setfhLoop ma (i + 1) n (mem ++ piece) (room - rc)
+          setfhLoop rest n (mem ++ piece) (room - rc)
 
 /-- `trx_if_cmd_setfh` up to the call of `trx_ctrl_cmd`: the error code or the string in `ma_buf` -/
 def setfhMaBuf (maLen : Nat) (ma : List Nat) : Except Fault (Except Int (List Nat)) := do
@@ -471,7 +480,7 @@ def setfhMaBuf (maLen : Nat) (ma : List Nat) : Except Fault (Except Int (List Na
   let room := cap - 1                            -- size_t ma_buf_len = sizeof(ma_buf) - 1
   let maLen := u32 maLen
   if maLen = 0 ∨ ma.isEmpty then return .error (-eINVAL)   -- !cmdp->ma_len || cmdp->ma == NULL
-  match ← setfhLoop ma 0 maLen [] room with
+  match ← setfhLoop ma maLen [] room with
   | .error rc => return .error rc
   | .ok mem =>
     -- *(ptr - 1) = '\0';
@@ -526,6 +535,40 @@ def measureRspCb (t : Trx) (resp : List Nat) : Trx :=
 
 def startsWith (s p : List Nat) : Bool := strncmpEq s p p.length
 
+/-- `rsp_error:` -/
+def rspError (t : Trx) : Int × Trx := (-eIO, { t with ev := t.ev ++ [Event.term termError] })
+
+/-- "Trigger state machine": the `strncmp(tcm->cmd + 4, ...)` chain; `c4` is the string at
+`tcm->cmd + 4`, `mem` the initialised part of `buf` -/
+def rspDispatch (t : Trx) (c4 mem : List Nat) (readLen : Nat) : Except Fault Trx :=
+  if startsWith c4 (str "POWERON") then fsmChg { t with poweredUp := true } stActive
+  else if startsWith c4 (str "POWEROFF") then fsmChg { t with poweredUp := false } stIdle
+  else if startsWith c4 (str "MEASURE") then do
+    -- trx_if_measure_rsp_cb(trx, buf + OSMO_MIN(read_len, 14))
+    let r ← cstrAt mem trxcBufSize (min readLen 14)
+    pure (measureRspCb t r)
+  else if startsWith c4 (str "ECHO") then fsmChg t stIdle
+  else fsmChg t t.prevState
+
+/-- from "Check for response code" to the end; `p` = index of the blank behind the verb in
+`s4` (the string at `buf + 4`), `none` = NULL -/
+def rspStatus (t : Trx) (tcm : CtrlMsg) (rest : List CtrlMsg) (mem s4 : List Nat) (p : Option Nat)
+    (readLen : Nat) : Except Fault (Int × Trx) :=
+  -- if (p == NULL || sscanf(p + 1, "%d", &resp) != 1) goto rsp_error;
+  match p with
+  | none => .ok (rspError { t with elog := true })
+  | some i =>
+    match sscanfD (s4.drop (i + 1)) with
+    | none => .ok (rspError { t with elog := true })
+    | some resp =>
+      let t := if resp ≠ 0 then { t with elog := true } else t
+      if resp ≠ 0 ∧ tcm.critical ≠ 0 then .ok (rspError t)
+      else do
+        let t ← rspDispatch t (cmdStrAt tcm 4) mem readLen
+        -- llist_del(&tcm->list); talloc_free(tcm); trx_ctrl_send(trx);
+        let t ← ctrlSend { t with queue := rest }
+        pure (0, t)
+
 /-- `trx_ctrl_read_cb` for the datagram `d` waiting on the control socket; returns the return
 code and the new state -/
 def cReadCb (t : Trx) (d : List Nat) : Except Fault (Int × Trx) := do
@@ -541,37 +584,12 @@ def cReadCb (t : Trx) (d : List Nat) : Except Fault (Int × Trx) := do
   let s4 ← cstrAt mem cap 4
   let p := strchrIdx s4 32
   let rspLen := match p with | some i => i | none => s0.length - 4
-  let t := { t with ev := t.ev ++ [Event.timerDel] }                 -- osmo_timer_del
+  let t := { t with ev := t.ev ++ [Event.timerDel] }             -- osmo_timer_del
   match t.queue with
   | [] => return (-eINVAL, t)
   | tcm :: rest =>
-    let rspError (t : Trx) : Except Fault (Int × Trx) :=
-      .ok (-eIO, { t with ev := t.ev ++ [Event.term termError] })
     if !strncmpEq s4 (cmdStrAt tcm 4) rspLen then
-      rspError { t with elog := true }
-    else
-    -- if (p == NULL || sscanf(p + 1, "%d", &resp) != 1) goto rsp_error;
-    match p with
-    | none => rspError { t with elog := true }
-    | some i =>
-    match sscanfD (s4.drop (i + 1)) with
-    | none => rspError { t with elog := true }
-    | some resp =>
-      let t := if resp ≠ 0 then { t with elog := true } else t
-      if resp ≠ 0 ∧ tcm.critical ≠ 0 then rspError t
-      else
-        let c4 := cmdStrAt tcm 4
-        let t ←
-          if startsWith c4 (str "POWERON") then fsmChg { t with poweredUp := true } stActive
-          else if startsWith c4 (str "POWEROFF") then fsmChg { t with poweredUp := false } stIdle
-          else if startsWith c4 (str "MEASURE") then do
-            -- trx_if_measure_rsp_cb(trx, buf + OSMO_MIN(read_len, 14))
-            let r ← cstrAt mem cap (min readLen 14)
-            pure (measureRspCb t r)
-          else if startsWith c4 (str "ECHO") then fsmChg t stIdle
-          else fsmChg t t.prevState
-        -- llist_del(&tcm->list); talloc_free(tcm); trx_ctrl_send(trx);
-        let t ← ctrlSend { t with queue := rest }
-        return (0, t)
+      return rspError { t with elog := true }
+    else rspStatus t tcm rest mem s4 p readLen
 
 end OsmoVerif.TrxconIf
